@@ -977,6 +977,12 @@ def r14_writer_tests_truth_not_presence(ctx, res):
                          f'when the database has none ({keys[k]}): an exported element without {k} is written with {k}=""')
 
 
+def r15_writer_metadata_complete(ctx, res):
+    """export goes through lmf.dump: every metadata key the model and the reader know (dc:*, status, note, confidenceScore) is
+    written by _meta_dict - the tables analysis of C02-R4 (a key the writer forgets is lost by every export)."""
+    from .c02 import r4_metadata_tables
+    r4_metadata_tables(ctx, res)
+
 RULES = [
     ('C03-R1', r1_coverage, 75),
     ('C03-R2', r2_guard_consistency, 3),
@@ -992,4 +998,5 @@ RULES = [
     ('C03-R12', r12_frames_referable, 1),
     ('C03-R13', r13_absent_values_guarded, 1),
     ('C03-R14', r14_writer_tests_truth_not_presence, 15),
+    ('C03-R15', r15_writer_metadata_complete, 3),
 ]
